@@ -7,12 +7,17 @@
         `decoders`: one entry per MODELLED decoder: how to run the Lean model on (params, input) and how an
         independent reader of the wire format classifies the input (`Shape`).  Oracle: never `panic`, never
         `hang`; an input whose length prefix is negative, or larger than what the input holds, must give `err`.
+        The models of the palette container (C12), section / chunk / block entity (C13), the JSON text component
+        (C17, on the JSON tree the harness reports: encoding/json's text layer is a parameter), the typed nbt decoder
+        behind `pk.NBT` / `NBTField` (C02/C03) and the registries over it are the OWNING properties' models, run and
+        printed with the owning drivers' functions.
     c08.raw <decoder> <params> <hex> => ok used=<k> | err used=<k> | panic | hang
-        `rawDecoders`: one entry per ORACLE-ONLY decoder (no Lean model yet; props/C08.json lists them under
-        `oracle_only_decoders`).  Only the oracle "never panic / never hang" is applied; the model column echoes the
-        observation (it is NOT evidence of correspondence).  An entry may name known-finding classes: inputs on which
-        the unchanged code of another work package is known to panic (markers, `known_findings.json`); on such an
-        input a `panic` is reported as `K <marker>`, anything else is judged normally.
+        `rawDecoders`: ORACLE-ONLY lines (props/C08.json, `oracle_only_decoders`): `chat.nbt` (no Lean model of the NBT
+        form of chat.Message yet) and the part of the `chunk` stream the harness does not send through the model
+        (`section` / `chunk` inputs over 1200 bytes are sampled with probability inversely proportional to the model's
+        cost, which is quadratic in the input length: harness/c08.go `c08SampleOp`).
+        Only the oracle "never panic / never hang" is applied; the model column echoes the observation (it is NOT
+        evidence of correspondence).
     c08.spin <hex> => ok … | err … | hang        the known finding `C08.ary-zero-width-spin`
   The decoders owned by other properties keep their own operations and handlers (`frame.unpack` → Driver.C07,
   `cmd.exec` → Driver.CMD, `dynbt.dec` → Driver.DYNBT); `Main` dispatches them.
@@ -22,6 +27,12 @@
 import Driver.Util
 import Driver.C06
 import Driver.C11
+import Driver.C12
+import Driver.C13
+import Driver.C17
+import Driver.C02
+import GoMC.Model.ChatWire
+import GoMC.Model.NBTField
 import GoMC.Model.Combinators
 import GoMC.Model.BitStorage
 import GoMC.Model.Registry
@@ -149,7 +160,7 @@ def wLongArray : W Unit := do
 /-! ### NBT as far as the walkers need it (binary format description; big-endian lengths) -/
 
 inductive NScan where
-  | negArray                 -- an IntArray / LongArray with a negative length comes first
+  | negArray                 -- a byte / int / long array, a list or a string with a negative length comes first
   | stop                     -- malformed or truncated in another way
   | done (rest : Bytes)
 
@@ -176,10 +187,10 @@ def nSkip : Nat → Nat → Bytes → NScan
     | 3 | 5 => nTake 4 bs
     | 4 | 6 => nTake 8 bs
     | 7 => match be32s bs with
-      | some (n, r) => if n < 0 then .stop else nTake n.toNat r
+      | some (n, r) => if n < 0 then .negArray else nTake n.toNat r
       | none => .stop
     | 8 => match be16s bs with
-      | some (n, r) => if n < 0 then .stop else nTake n.toNat r
+      | some (n, r) => if n < 0 then .negArray else nTake n.toNat r
       | none => .stop
     | 11 => match be32s bs with
       | some (n, r) => if n < 0 then .negArray else nTake (4 * n.toNat) r
@@ -190,7 +201,9 @@ def nSkip : Nat → Nat → Bytes → NScan
     | 9 => match bs with
       | [] => .stop
       | et :: r => match be32s r with
-        | some (n, r2) => if n < 0 ∨ et.toNat == 0 then (if n == 0 then .done r2 else .stop) else nSkipList fuel et.toNat n.toNat r2
+        | some (n, r2) =>
+          if n < 0 then (if et.toNat ≤ 12 then .negArray else .stop)
+          else if et.toNat == 0 then (if n == 0 then .done r2 else .stop) else nSkipList fuel et.toNat n.toNat r2
         | none => .stop
     | 10 => nSkipEntries fuel fuel bs
     | _ => .stop
@@ -211,7 +224,8 @@ def nSkipEntries : Nat → Nat → Bytes → NScan
       if t.toNat == 0 then .done r else
       match be16s r with
       | some (n, r2) =>
-        if n < 0 ∨ r2.length < n.toNat then .stop else
+        if n < 0 then .negArray else
+        if r2.length < n.toNat then .stop else
         match nSkip fuel t.toNat (r2.drop n.toNat) with
         | .done r3 => nSkipEntries fuel w r3
         | x => x
@@ -266,11 +280,11 @@ def showVar (w : Nat) (input : Bytes) (r : Res (Nat × Nat) × Stream) : String 
   | (.err, s) => s!"err used={used input s}"
   | (.panic, _) => "panic"
 
-def runVarInt (_ : String) (input : Bytes) : Option String :=
+def runVarInt (_ : String) (input : Bytes) (_ : String) : Option String :=
   let (r, s) := varIntRead (Stream.ofBytes input)
   some (showVar 32 input (r.map fun (v, n) => (v.toNat, n), s))
 
-def runVarLong (_ : String) (input : Bytes) : Option String :=
+def runVarLong (_ : String) (input : Bytes) (_ : String) : Option String :=
   let (r, s) := varLongRead (Stream.ofBytes input)
   some (showVar 64 input (r.map fun (v, n) => (v.toNat, n), s))
 
@@ -280,7 +294,7 @@ def fldTy (params : String) : Option (Ty × Nat) :=
   | t :: m :: _ => (C06.tyOfString t).map fun ty => (ty, natArg m)
   | _ => none
 
-def runFld (params : String) (input : Bytes) : Option String :=
+def runFld (params : String) (input : Bytes) (_ : String) : Option String :=
   (fldTy params).map fun (t, mode) =>
     match (codec t).dec (prior mode t (codec t).zero) (Stream.ofBytes input) with
     | (.ok (d, n), s) => s!"ok n={n} used={used input s} v={C06.showAbs t (abs t d)}"
@@ -292,7 +306,7 @@ def shapeFld (params : String) (input : Bytes) : WRes Unit :=
   | some (t, _) => wTy t input
   | none => .unknown
 
-def runScan (params : String) (input : Bytes) : Option String :=
+def runScan (params : String) (input : Bytes) (_ : String) : Option String :=
   (fldTy (params ++ "/0")).map fun (t, mode) =>
     match scan t (prior mode t (codec t).zero) input with
     | .ok d => s!"ok v={C06.showAbs t (abs t d)}"
@@ -300,7 +314,7 @@ def runScan (params : String) (input : Bytes) : Option String :=
     | .panic => "panic"
 
 /-- bits params: `<bits>/<n>/<init>/<fixbits>` -/
-def runBits (params : String) (input : Bytes) : Option String :=
+def runBits (params : String) (input : Bytes) (_ : String) : Option String :=
   match params.splitOn "/" with
   | [b, n, init, fb] =>
     match b.toInt?, n.toInt?, C11.parseInit init, fb.toInt? with
@@ -344,7 +358,7 @@ def showDynEntry (es : List (Bytes × DynBT.Val)) (i : Nat) (e : Bytes × DynBT.
     | _ => "encerr"
   s!"{k}:{e.2.tag.toNat}:{enc}"
 
-def runRegistryDyn (_ : String) (input : Bytes) : Option String :=
+def runRegistryDyn (_ : String) (input : Bytes) (_ : String) : Option String :=
   match Registry.readFrom Registry.nbtFieldDyn (Stream.ofBytes input) with
   | (.ok (es, n), s) =>
     let parts := es.zipIdx.map fun (e, i) => showDynEntry es i e
@@ -369,7 +383,7 @@ def tagTable (tags : List (Bytes × List Nat)) : List (Bytes × List Nat) :=
   let dedup := tags.foldl (fun acc e => (acc.filter fun x => x.1 != e.1) ++ [e]) []
   dedup.mergeSort fun a b => !(bytesLt b.1 a.1)
 
-def runTags (params : String) (input : Bytes) : Option String :=
+def runTags (params : String) (input : Bytes) (_ : String) : Option String :=
   match params.splitOn "/" with
   | nv :: _ =>
     match Registry.readTagsFrom (natArg nv) [] (Stream.ofBytes input) with
@@ -389,11 +403,202 @@ def shapeTags (_ : String) (input : Bytes) : WRes Unit :=
       let k ← wCount wVarInt "tag length"
       wRepeat (do let _ ← wVarInt; pure ()) k) n) input
 
+
+/-! ### decoders whose models other properties own -/
+
+def decObs {α} (input : Bytes) (r : Res (α × Nat) × Stream) (sh : α → Option String) : String :=
+  match r with
+  | (.ok (v, n), s) => s!"ok n={n} used={used input s} v={(sh v).getD "panic"}"
+  | (.err, s) => s!"err used={used input s}"
+  | (.panic, _) => "panic"
+
+/-- every position of a container as `Get` reports it, in C12's rendering; `none`: a `Get` panics -/
+def contObs (c : Container) (n : Nat) : Option String := (C13.M.allOf c n).map C12.showAll
+
+/-- palette params: `<states|biomes>/<registry width>` -/
+def palCfgOf (params : String) : Option (PalCfg × Nat) :=
+  match params.splitOn "/" with
+  | [k, gb] =>
+    match gb.toInt? with
+    | some g => if k == "states" then some (⟨.blocks, g⟩, 4096) else if k == "biomes" then some (⟨.biomes, g⟩, 64) else none
+    | none => none
+  | _ => none
+
+def runPalette (params : String) (input : Bytes) (_ : String) : Option String :=
+  (palCfgOf params).map fun (cfg, n) =>
+    match (Container.new cfg n 0).readFrom (Stream.ofBytes input) with
+    | (.ok k, d, s) => s!"ok n={k} used={used input s} v={(contObs d n).getD "panic"}"
+    | (.err, _, s) => s!"err used={used input s}"
+    | (.panic, _, _) => "panic"
+
+open GoMC.Model.Chunk in
+def secObs (s : WSec) : Option String := do
+  let st ← contObs s.states 4096
+  let bi ← contObs s.biomes 64
+  pure s!"{s.count.toInt}.{st}.{bi}.{(BitVec.ofInt 8 s.states.bits).toNat}.{(BitVec.ofInt 8 s.biomes.bits).toNat}"
+
+def ctxOf (gbS gbB : String) : Option C13.M.Ctx :=
+  match gbS.toInt?, gbB.toInt? with
+  | some a, some b => some { gbS := a, gbB := b, reg := 0, nb := 0, air := [] }
+  | _, _ => none
+
+open GoMC.Model.Chunk in
+def runSection (params : String) (input : Bytes) (_ : String) : Option String :=
+  match params.splitOn "/" with
+  | [a, b] =>
+    (ctxOf a b).bind fun x =>
+      match C13.M.build x 1 [] with
+      | .ok d =>
+        match d.secs with
+        | sec :: _ => some (decObs input (Section.readFrom x.gbS x.gbB sec (Stream.ofBytes input)) secObs)
+        | [] => none
+      | _ => some "panic"
+  | _ => none
+
+open GoMC.Model.Chunk in
+def chunkObs (c : C13.M.MChunk) : Option String := do
+  let parts ← c.secs.mapM secObs
+  pure s!"{"/".intercalate parts},{GoMC.Spec.Chunk.digestLongs c.hm.motionBlocking.data},{GoMC.Spec.Chunk.digestLongs c.hm.worldSurface.data},{C13.M.entsObs c.ents}"
+
+open GoMC.Model.Chunk in
+def runChunk (params : String) (input : Bytes) (_ : String) : Option String :=
+  match params.splitOn "/" with
+  | [n, a, b] =>
+    (ctxOf a b).bind fun x =>
+      match C13.M.build x (natArg n) [] with
+      | .ok d => some (decObs input (Model.Chunk.Chunk.readFrom x.gbS x.gbB d (Stream.ofBytes input)) chunkObs)
+      | _ => some "panic"
+  | _ => none
+
+open GoMC.Model.Chunk in
+def runBlockEntity (_ : String) (input : Bytes) (_ : String) : Option String :=
+  some (decObs input (BlockEntity.readFrom (0#8, 0, 0#32, ⟨0#8, []⟩) (Stream.ofBytes input))
+    fun e => some (C13.M.entsObs ⟨[e], []⟩))
+
+/-- `JsonMessage.ReadFrom`: the String frame is modelled byte for byte; the JSON text inside is read by encoding/json,
+whose result (a tree, or "not a JSON text") the harness reports in `tree=` — the model's `parse` parameter -/
+def runChatJSON (_ : String) (input : Bytes) (obs : String) : Option String :=
+  let toks := obs.splitOn " "
+  let treeTok := (kv toks "tree").getD "-"
+  let tree : Option (Option JSON) :=
+    if treeTok == "!" || treeTok == "-" then some none else (C17.parseTreeTok treeTok).map some
+  tree.map fun t =>
+    match Chat.jsonMessageRead (fun _ => t) Msg.zero (Stream.ofBytes input) with
+    | (.ok (m, n), s) =>
+      -- duplicate keys / non-canonical numbers: encoding/json's tree is not the one the token shows (C17)
+      let inexact := match t with | some j => C17.hasDupKeys j || !C17.contentsNumbersCanonical j | none => false
+      if inexact && (obs.splitOn " ").headD "" == "ok" then obs
+      else s!"ok n={n} used={used input s} tree={treeTok} v={C17.showMsg m}"
+    | (.err, s) => s!"err used={used input s} tree={treeTok}"
+    | (.panic, _) => "panic"
+
+/-- nbt params: `<key>:<allow unknown fields>:<type description>`: `pk.NBTField{V: &v, AllowUnknownFields: a}.ReadFrom` -/
+def runNbt (params : String) (input : Bytes) (_ : String) : Option String :=
+  match params.splitOn ":" with
+  | [_, a, d] =>
+    match GoText.parseType d.toList with
+    | some (t, []) =>
+      some (decObs input (Model.Go.fieldRead C02.cx (a == "1") t t.zero (Stream.ofBytes input)) fun v => some (GoText.showVal v))
+    | _ => none
+  | _ => none
+
+/-- registry params: `<key>:<element type description>`: the registry loop over `NBTField{V: &data, AllowUnknownFields: true}` -/
+def runRegistryTyped (params : String) (input : Bytes) (_ : String) : Option String :=
+  match params.splitOn ":" with
+  | [_, d] =>
+    match GoText.parseType d.toList with
+    | some (t, []) =>
+      some (decObs input (Registry.readFrom (Model.Go.fieldRead C02.cx true t t.zero) (Stream.ofBytes input)) fun es =>
+        let parts := es.zipIdx.map fun (e, i) =>
+          (if Registry.keysOf es e.1 == some i then hexOfBytes e.1 else "?") ++ "=" ++ GoText.showVal e.2
+        some (if parts.isEmpty then "-" else "#".intercalate parts))
+    | _ => none
+  | _ => none
+
+/-! ### the independent reader for these decoders -/
+
+/-- a paletted container: bits byte, palette (single value / list with a count / nothing), data array -/
+def wPalette (states : Bool) : W Unit := do
+  let b ← wByte
+  if b == 0 then do let _ ← wVarInt; wLongArray
+  else if (states && b ≤ 8) || (!states && b ≤ 3) then do
+    let n ← wCount wVarInt "palette size"
+    -- an indirect palette indexes its entries with `b` bits (block states: at least 4): more entries cannot be addressed
+    let width := if states && b < 4 then 4 else b
+    if n > 2 ^ width then wBad s!"palette size {n} exceeds the 2^{width} entries the index width can address" else
+    wRepeat (do let _ ← wVarInt; pure ()) n
+    wLongArray
+  else wLongArray
+
+def wSection : W Unit := do wSkip 2; wPalette true; wPalette false
+
+/-- a network-format NBT document: a negative array / list / string length is the error the property names;
+anything else ill-formed is left to the decoder (`unknown`) -/
+def wNbt : W Unit := fun bs =>
+  match nDoc bs with
+  | .done r => .ok () r
+  | .negArray => .bad "negative NBT array, list or string length"
+  | .stop => .unknown
+
+def wBlockEntity : W Unit := do wSkip 3; let _ ← wVarInt; wNbt
+
+def asciiUpper (bs : Bytes) : Bytes := bs.map fun b => if 97 ≤ b.toNat && b.toNat ≤ 122 then BitVec.ofNat 8 (b.toNat - 32) else b
+
+def motionBlocking : Bytes := "MOTION_BLOCKING".toUTF8.toList.map fun b => BitVec.ofNat 8 b.toNat
+def worldSurface : Bytes := "WORLD_SURFACE".toUTF8.toList.map fun b => BitVec.ofNat 8 b.toNat
+
+/-- `bits.Len(16*secs + 1)` -/
+def bitsLen (n : Nat) : Nat := if n == 0 then 0 else Nat.log2 n + 1
+
+/-- the height maps of a chunk packet: a well-formed compound in which exactly one entry is named (up to ASCII case)
+like the field and is a long array / list of another length than 256 heights of the chunk's width need -/
+def wHeightMaps (secs : Nat) : W Unit := fun bs =>
+  match wNbt bs with
+  | .ok _ rest =>
+    let want := size (bitsLen (16 * secs + 1)) 256
+    let bad : Bool := match bs with
+      | t :: r =>
+        t.toNat == 10 &&
+        [motionBlocking, worldSurface].any fun name =>
+          match (nArrayEntries (bs.length + 2) r).filter (fun e => asciiUpper e.1 == name) with
+          | [e] => e.2 != want
+          | _ => false
+      | [] => false
+    if bad then .bad s!"a height map that does not hold {want} longs" else .ok () rest
+  | x => x
+
+def wLight : W Unit := do
+  wTy .bitset; wTy .bitset; wTy .bitset; wTy .bitset
+  wTy (.ary .varint .bytearray); wTy (.ary .varint .bytearray)
+
+def wChunk (secs : Nat) : W Unit := do
+  wHeightMaps secs
+  let n ← wCount wVarInt "data length"
+  fun bs =>
+    if bs.length < n then .bad s!"declared data length {n} exceeds the {bs.length} bytes that follow" else
+    -- the sections are decoded from the data array; what follows the last one is ignored
+    match wRepeat wSection secs (bs.take n) with
+    | .bad why => .bad why
+    | .unknown => .unknown
+    | .ok _ _ =>
+      (do let k ← wCount wVarInt "block entity count"
+          wRepeat wBlockEntity k
+          wLight) (bs.drop n)
+
+def shapeRegistryTyped (_ : String) (input : Bytes) : WRes Unit :=
+  (do
+    let n ← wCount wVarInt "registry length"
+    wRepeat (do
+      wTy .string
+      let b ← wByte
+      if b == 0 then pure () else if b != 1 then wUnknown else wNbt) n) input
+
 /-! ### the registry of modelled decoders -/
 
 structure Dec where
   name : String
-  run : String → Bytes → Option String          -- the model's observation
+  run : String → Bytes → String → Option String -- the model's observation (params, input, the implementation's observation:
+                                                -- only `chat.json` reads it, for the JSON tree that encoding/json produced)
   shape : String → Bytes → WRes Unit            -- the independent reader's classification of the input
   extra : String → String → Option String := fun _ _ => none   -- further demands on (params, observation)
 
@@ -404,7 +609,14 @@ def decoders : List Dec := [
   { name := "scan", run := runScan, shape := fun p bs => shapeFld (p ++ "/0") bs },
   { name := "bits", run := runBits, shape := shapeBits, extra := specBits },
   { name := "registry.dynbt", run := runRegistryDyn, shape := shapeRegistry },
-  { name := "registry.tags", run := runTags, shape := shapeTags } ]
+  { name := "registry.tags", run := runTags, shape := shapeTags },
+  { name := "palette", run := runPalette, shape := fun p bs => wPalette (p.startsWith "states") bs },
+  { name := "section", run := runSection, shape := fun _ bs => wSection bs },
+  { name := "chunk", run := runChunk, shape := fun p bs => wChunk (natArg ((p.splitOn "/").headD "")) bs },
+  { name := "blockentity", run := runBlockEntity, shape := fun _ bs => wBlockEntity bs },
+  { name := "chat.json", run := runChatJSON, shape := fun _ bs => wTy .string bs },
+  { name := "nbt", run := runNbt, shape := fun _ bs => wNbt bs },
+  { name := "registry", run := runRegistryTyped, shape := shapeRegistryTyped } ]
 
 def specCommon (cls : String) : Option String :=
   if cls == "panic" then some "decoder panicked on peer-controlled bytes"
@@ -415,7 +627,7 @@ def specCommon (cls : String) : Option String :=
 def dec (name params hex obs : String) : Verdict :=
   match decoders.find? (fun d => d.name == name), parseHex hex with
   | some d, some input =>
-    match d.run params input with
+    match d.run params input obs with
     | none => { model := "bad-params" }
     | some model =>
       let cls := (obs.splitOn " ").headD ""
@@ -429,71 +641,17 @@ def dec (name params hex obs : String) : Verdict :=
   | none, _ => { model := "unknown-decoder" }
   | _, none => { model := "bad-arg" }
 
-/-! ### oracle-only decoders and their known-finding classes -/
-
-/-- the data array as the code reads it -/
-def wLongArrayCode : W Unit := do
-  let n ← wCount wVarIntCode "data array length"
-  wPayload (8 * n) "data array of declared length"
-
-/-- the palette of a paletted container: a negative size of an indirect (linear / hash) palette -/
-def paletteNeg (states : Bool) : W Unit := do
-  let b ← wByte
-  if b == 0 then do let _ ← wVarIntCode; wLongArrayCode
-  else if (states && b ≤ 8) || (!states && b ≤ 3) then do
-    let n ← wCount wVarIntCode "palette size"
-    wRepeat (do let _ ← wVarIntCode; pure ()) n
-    wLongArrayCode
-  else wLongArrayCode
-
-def isNegPalette : WRes Unit → Bool
-  | .bad why => why.startsWith "negative palette size"
-  | _ => false
-
-def sectionW : W Unit := do wSkip 2; paletteNeg true; paletteNeg false
-
-def mPalette := "C08.palette-negative-size"
-def mHeight := "C08.chunk-heightmap-length"
-def mNbtArr := "C08.nbt-negative-array-length"
-
-def motionBlocking : Bytes := "MOTION_BLOCKING".toUTF8.toList.map fun b => BitVec.ofNat 8 b.toNat
-def worldSurface : Bytes := "WORLD_SURFACE".toUTF8.toList.map fun b => BitVec.ofNat 8 b.toNat
-
-/-- `bits.Len(16*secs + 1)` -/
-def bitsLen (n : Nat) : Nat := if n == 0 then 0 else Nat.log2 n + 1
-
-def chunkMarkers (secs : Nat) (input : Bytes) : List String :=
-  let m1 := match nDoc input with | .negArray => [mNbtArr] | _ => []
-  let want := size (bitsLen (16 * secs + 1)) 256
-  let m2 := match input with
-    | t :: r => if t.toNat == 10 &&
-        (nArrayEntries (input.length + 2) r).any (fun e => (e.1 == motionBlocking || e.1 == worldSurface) && e.2 != want)
-      then [mHeight] else []
-    | [] => []
-  let m3 := match nDoc input with
-    | .done r =>
-      (match wCount wVarIntCode "length" r with
-        | .ok n r2 =>
-          if r2.length < n then [] else
-          if isNegPalette (wRepeat sectionW secs (r2.take n)) then [mPalette] else []
-        | _ => [])
-    | _ => []
-  m1 ++ m2 ++ m3
+/-! ### oracle-only lines -/
 
 structure RawDec where
   name : String
-  /-- known-finding classes this input falls in (markers of `known_findings.json`) -/
+  /-- known-finding classes this input falls in (markers of `known_findings.json`); none at present -/
   known : String → Bytes → List String := fun _ _ => []
 
 def rawDecoders : List RawDec := [
-  { name := "palette", known := fun p bs => if isNegPalette (paletteNeg (p == "states") bs) then [mPalette] else [] },
-  { name := "section", known := fun _ bs => if isNegPalette (sectionW bs) then [mPalette] else [] },
-  { name := "chunk", known := fun p bs => chunkMarkers (natArg p) bs },
-  { name := "blockentity" },
-  { name := "chat.nbt", known := fun _ bs => match nDoc bs with | .negArray => [mNbtArr] | _ => [] },
-  { name := "chat.json" },
-  { name := "nbt", known := fun _ bs => match nDoc bs with | .negArray => [mNbtArr] | _ => [] },
-  { name := "registry" } ]
+  { name := "section" },    -- the long inputs the harness does not send through the model
+  { name := "chunk" },
+  { name := "chat.nbt" } ]
 
 def raw (name params hex obs : String) : Verdict :=
   match rawDecoders.find? (fun d => d.name == name) with
